@@ -34,6 +34,7 @@ RULE = (
     "length and content of every result; stdout must equal the rendering of text.split('\\n') followed by empty "
     "strings; in a fifth of the runs some calls discard their result (a declaration nobody reads, or a bare call "
     "statement) and must still consume their line: their records are simply absent from the expected output. "
+    "a fifth of the file / single-write runs contain one line of 2^20-1, 2^20, 2^20+10 or 3*2^20+1 bytes. "
     "Non-trivial = some write carries a newline followed by at least one more byte (two lines in one "
     "write/read), or a write boundary falls strictly inside a line, or a line is longer than 8192 bytes; "
     "distinct = hash of (delivery mode, write sizes, text bytes)"
@@ -214,6 +215,14 @@ def gen_case(seed, idx, tier, builds):
     all_sets = ["ascii", "special", "multi", "multi", "control"]
     if mode == "file" or mode == "pipe1":
         text, prof = gen_text(rng, 400_000, 70000, all_sets)
+        if rng.random() < 0.2:
+            # one line around a megabyte (2^20 - 1, 2^20, 2^20 + 10, 3 * 2^20 + 1 bytes) among short ones
+            n = rng.choice([(1 << 20) - 1, 1 << 20, (1 << 20) + 10, 3 * (1 << 20) + 1])
+            big = make_line(rng, n, rng.choice(["ascii", "multi"]))
+            lines = text.split("\n")[:6]
+            lines.insert(rng.randint(0, len(lines)), big)
+            text = "\n".join(lines)
+            prof += "/megabyte-line"
         data = text.encode()
         chunks = [len(data)] if data else []
     elif mode.startswith("chunk") and mode[5:].isdigit():
